@@ -77,42 +77,40 @@ func (p *Program) ApplyLayout(prog *Program) {
 	p.Statements = []Statement{p.UseStmt}
 }
 
-func (p *Program) ApplyComponent(name string, prog *Program, progFilePath string) *fail.Error {
-	for _, comp := range p.Components {
-		if comp.Name.Value != name {
-			continue
+// ApplyComponent attaches the parsed component program to one
+// component statement and puts the statement's slot bodies into it
+func (p *Program) ApplyComponent(comp *ComponentStmt, prog *Program, progFilePath string) *fail.Error {
+	name := comp.Name.Value
+
+	duplicateName, times := findDuplicateSlot(comp.Slots)
+
+	if times > 0 {
+		if name == "" {
+			return fail.New(prog.Line(), progFilePath, "parser",
+				fail.ErrDuplicateDefaultSlotUsage, times, name)
 		}
 
-		duplicateName, times := findDuplicateSlot(comp.Slots)
+		return fail.New(prog.Line(), progFilePath, "parser",
+			fail.ErrDuplicateSlotUsage, duplicateName, times, name)
+	}
 
-		if times > 0 {
-			if name == "" {
+	for _, slot := range comp.Slots {
+		idx := findSlotStmtIndex(prog.Statements, slot.Name.Value)
+
+		if idx == -1 {
+			if slot.Name.Value == "" {
 				return fail.New(prog.Line(), progFilePath, "parser",
-					fail.ErrDuplicateDefaultSlotUsage, times, name)
+					fail.ErrDefaultSlotNotDefined, name)
 			}
 
 			return fail.New(prog.Line(), progFilePath, "parser",
-				fail.ErrDuplicateSlotUsage, duplicateName, times, name)
+				fail.ErrSlotNotDefined, slot.Name.Value, name)
 		}
 
-		for _, slot := range comp.Slots {
-			idx := findSlotStmtIndex(prog.Statements, slot.Name.Value)
-
-			if idx == -1 {
-				if slot.Name.Value == "" {
-					return fail.New(prog.Line(), progFilePath, "parser",
-						fail.ErrDefaultSlotNotDefined, name)
-				}
-
-				return fail.New(prog.Line(), progFilePath, "parser",
-					fail.ErrSlotNotDefined, slot.Name.Value, name)
-			}
-
-			prog.Statements[idx].(*SlotStmt).Body = slot.Body
-		}
-
-		comp.Block = prog
+		prog.Statements[idx].(*SlotStmt).Body = slot.Body
 	}
+
+	comp.Block = prog
 
 	return nil
 }
